@@ -22,6 +22,18 @@ type tkey struct {
 	id   peer.ID // as derived by the real IDFromPublicKey
 }
 
+// idFromOwnedBytes parses an ID out of a buffer the caller owns and then
+// overwrites that buffer (a receive loop re-using its buffer): the returned ID
+// is a value and must not change.
+func idFromOwnedBytes(in []byte) (peer.ID, error) {
+	buf := append([]byte{}, in...)
+	id, err := peer.IDFromBytes(buf)
+	for i := range buf {
+		buf[i] = 0xAA
+	}
+	return id, err
+}
+
 func TestC10(t *testing.T) {
 	run := evid.Start("C10", "exploration")
 	acc := enum.NewAcc(run, "4 fixture keys + all 256 single-bit neighbours of one raw key: per-key round trips and all ordered key pairs; as binary IDs every byte substitution / truncation / 1-2 byte extension of a valid ID, all strings of length <=3 (thorough <=4) over a boundary alphabet, hand-built varint and length-field variants; as text every single-character substitution / truncation / extension of a valid base58 ID; a case is non-trivial unless it is the round trip of a fixture key; distinct by (group, description)")
@@ -103,7 +115,7 @@ func TestC10(t *testing.T) {
 			bad("text-not-base58-of-id", "the text form does not decode (reference base58) to the ID bytes")
 		}
 		// ID -> bytes -> ID
-		if p := enum.Try(func() { back, err = peer.IDFromBytes([]byte(id)) }); p != nil {
+		if p := enum.Try(func() { back, err = idFromOwnedBytes([]byte(id)) }); p != nil {
 			bad("panic/id-from-bytes", fmt.Sprintf("IDFromBytes panicked: %v", p))
 		} else if err != nil || back != id {
 			bad("bytes-roundtrip", fmt.Sprintf("IDFromBytes([]byte(id)) != id (err=%v)", err))
@@ -209,7 +221,7 @@ func TestC10(t *testing.T) {
 		text bool
 	}
 	parsers := []parser{
-		{"IDFromBytes", func(b []byte, _ string) (peer.ID, error) { return peer.IDFromBytes(b) }, false},
+		{"IDFromBytes", func(b []byte, _ string) (peer.ID, error) { return idFromOwnedBytes(b) }, false},
 		{"IDB58Decode", func(_ []byte, s string) (peer.ID, error) { return peer.IDB58Decode(s) }, true},
 		{"ParsePeerID", func(_ []byte, s string) (peer.ID, error) { return confparse.ParsePeerID(s) }, true},
 		{"ParsePeerIDs", func(_ []byte, s string) (peer.ID, error) {
